@@ -12,6 +12,12 @@ import (
 )
 
 // ToWire builds a wire.Value from a reference value.
+// BinaryAsString makes every conversion in this package use the string flavour of
+// the binary wire type (wire.NewValueString / GetString, WriteString / ReadString)
+// instead of the []byte flavour. Thrift strings are length-prefixed bytes: both
+// flavours must carry arbitrary bytes unchanged. Not safe for concurrent use.
+var BinaryAsString bool
+
 func ToWire(v tbin.Value) wire.Value {
 	switch v.T {
 	case tbin.Bool:
@@ -27,6 +33,9 @@ func ToWire(v tbin.Value) wire.Value {
 	case tbin.Double:
 		return wire.NewValueDouble(float64frombits(v.D))
 	case tbin.Binary:
+		if BinaryAsString {
+			return wire.NewValueString(string(v.B))
+		}
 		return wire.NewValueBinary(v.B)
 	case tbin.Struct:
 		fs := make([]wire.Field, len(v.Fields))
@@ -75,7 +84,11 @@ func FromWire(w wire.Value) (tbin.Value, error) {
 	case wire.TDouble:
 		v.D = float64bits(w.GetDouble())
 	case wire.TBinary:
-		v.B = append([]byte{}, w.GetBinary()...)
+		if BinaryAsString {
+			v.B = []byte(w.GetString())
+		} else {
+			v.B = append([]byte{}, w.GetBinary()...)
+		}
 	case wire.TStruct:
 		for _, f := range w.GetStruct().Fields {
 			fv, err := FromWire(f.Value)
